@@ -7,6 +7,10 @@ import (
 )
 
 func main() {
+	if len(os.Args) > 1 && os.Args[1] == "rabin" {
+		c11.DebugRabin()
+		return
+	}
 	if len(os.Args) > 1 && os.Args[1] == "one" {
 		c11.DebugOne(os.Stdout, false)
 		c11.DebugOne(os.Stdout, true)
